@@ -8,6 +8,7 @@ sys.path.insert(0, os.path.join(VERIF, "selftest"))
 import mutate
 
 MUT = dict((m["id"], m) for m in mutate.load())
+EXTRA_CONFIGS = [c for c in os.environ.get("DEVFACTS_CONFIGS", "").split(",") if c and c != "default"]
 
 
 def name_of(w):
@@ -23,7 +24,7 @@ def name_of(w):
 def one(out, w):
     name = name_of(w)
     dest = os.path.join(out, name + ".json")
-    if os.path.exists(dest):
+    if os.path.exists(dest) and all(os.path.exists(dest[:-5] + "@%s.json" % c) for c in EXTRA_CONFIGS):
         return name, "cached"
     scratch = tempfile.mkdtemp(prefix="shred-dev.")
     cache = tempfile.mkdtemp(prefix="shred-dev-cache.")
@@ -52,6 +53,8 @@ def one(out, w):
         env = dict(os.environ, VERIF_REPO=scratch, VERIF_NO_CACHE="1", VERIF_CACHE_DIR=cache)
         code = ("import shutil,sys;from shredlint import extract as E;d,i=E.extract('default');f=E.fact_files(d,crate='shred')[0];shutil.copyfile(f,sys.argv[1]);"
                 "g=E.fact_files(d,crate='shred_derive');g and shutil.copyfile(g[0],sys.argv[1][:-5]+'.derive.json')")
+        for cfg in EXTRA_CONFIGS:
+            code += ";d,i=E.extract('%s');f=E.fact_files(d,crate='shred')[0];shutil.copyfile(f,sys.argv[1][:-5]+'@%s.json')" % (cfg, cfg)
         p = subprocess.run([sys.executable, "-B", "-c", code, dest], cwd=VERIF, env=env, stdout=subprocess.PIPE, stderr=subprocess.STDOUT)
         return name, "ok" if p.returncode == 0 else "FAILED " + p.stdout.decode()[-300:]
     finally:
